@@ -385,19 +385,7 @@ theorem step_sound {lib : Lib} {rec : Expr → Outs} (hrec : RecSound lib rec) :
         · exact absurd (mem_singleton_ok hr) hk
       · exact Eval.subrunOkErr (hrec _ _ ho (by simp)) (hrec _ _ hx (by simp))
     | unk => simp at hr; exact absurd hr hk
-    | err x =>
-      simp only at hr
-      split at hr
-      · rename_i hne; subst hne; rw [mem_singleton_ok hr]; exact Eval.subrunErrNew (hrec _ _ ho (by simp))
-      · rename_i hne
-        have hne' : ne = false := by simpa using hne
-        subst hne'
-        rcases bindO_known hr hk with ⟨d, hd, hr⟩ | ⟨y, rfl, hy⟩
-        · split at hr
-          · rw [mem_singleton_ok hr]
-            exact Eval.subrunErrExt (hrec _ _ ho (by simp)) (hrec _ _ hd (by simp))
-          · exact absurd (mem_singleton_ok hr) hk
-        · exact Eval.subrunErrExtErr (hrec _ _ ho (by simp)) (hrec _ _ hy (by simp))
+    | err x => simp at hr; subst hr; exact Eval.subrunErr (hrec _ _ ho (by simp))
   | settle e =>
     simp only [step] at h
     rw [List.mem_map] at h
@@ -772,9 +760,7 @@ theorem result_isValue {lib : Lib} {e : Expr} {r : Out} (h : Eval lib e r) : ∀
     simp [isValue, allValues] at this
     exact this.1.2
   | subrunOkErr _ _ _ _ => intro v hv; cases hv
-  | subrunErrNew _ _ => intro v hv; cases hv
-  | subrunErrExt _ _ _ _ => intro v hv; cases hv
-  | subrunErrExtErr _ _ _ _ => intro v hv; cases hv
+  | subrunErr _ _ => intro v hv; cases hv
 
 /-! ## Completeness of the evaluator (when it reports no unknown) -/
 
@@ -1189,21 +1175,7 @@ theorem step_complete {lib : Lib} {rec : Expr → Outs} (hrec : RecComplete lib 
       have hb := hnf _ hv
       simp only at hb
       exact ⟨_, hv, bindO_err_intro (hrec _ _ (noUnk_bindO hb).1 h2)⟩
-    | subrunErrNew h1 => exact ⟨_, hrec _ _ hne h1, by simp⟩
-    | subrunErrExt h1 h2 =>
-      have hx := hrec _ _ hne h1
-      have hb := hnf _ hx
-      simp only [Bool.false_eq_true, if_false] at hb
-      exact ⟨_, hx, by
-        simp only [Bool.false_eq_true, if_false]
-        exact bindO_ok_intro (hrec _ _ (noUnk_bindO hb).1 h2) (by simp)⟩
-    | subrunErrExtErr h1 h2 =>
-      have hx := hrec _ _ hne h1
-      have hb := hnf _ hx
-      simp only [Bool.false_eq_true, if_false] at hb
-      exact ⟨_, hx, by
-        simp only [Bool.false_eq_true, if_false]
-        exact bindO_err_intro (hrec _ _ (noUnk_bindO hb).1 h2)⟩
+    | subrunErr h1 => exact ⟨_, hrec _ _ hne h1, by simp⟩
   | settle e =>
     simp only [step] at hn ⊢
     have hne : NoUnk (rec e) := by
